@@ -509,5 +509,6 @@ def execute(sc, prop):
         violate('call-history-differs', '%s: compute_accelerations / update_domain / post-stage history differs at event %d: compiled %r, literal %r'
                 % (sc['integrator'], k, log[k:k + 3], r_log[k:k + 3]))
     shape = (sc['integrator'], sc['stepper'], sc['narr'], steps, [(a['n'], a['nghost']) for a in sc['arrays']], periodic, sim)
-    return dict(violations=viol, digest=digest(repr(shape)), nontrivial=True, faults={}, probes=probes, sim=float(len(steps)),
+    return dict(violations=viol, digest=digest(repr(shape)), nontrivial=True, faults=({'simulated_loop_schedule': 1} if sim else {}),
+                probes=probes, sim=float(len(steps)),
                 inconclusive=False, stratum='%s/%s' % (sc['integrator'], sc['stepper']))
